@@ -294,7 +294,9 @@ def _spans(mode, items, stream, enc, t):
         if mode == "bytes":
             cands = [it] if isinstance(it, bytes) else []
         else:
-            cands = list(rev.get(it, ())) if isinstance(it, str) else []
+            # (a name stands for whatever either table lists under it: which table name a mode uses for a
+            # sequence its own table does not contain is judged -- or left free -- by the naming clause below)
+            cands = (list(t["rev_curtsies"].get(it, ())) + list(t["rev_curses"].get(it, ()))) if isinstance(it, str) else []
             if isinstance(it, str):
                 try:
                     cands.append(it.encode(enc))
